@@ -10,9 +10,11 @@
 #include "romea_core_common/diagnostic/CheckupReliability.hpp"
 
 using namespace romea::core;
-static const std::string NAME = "thing";
+// the checked quantity's name changes from one check-up object to the next: a message must name the object's OWN quantity
+static const std::vector<std::string> NAMES = {"thing", "speed", "battery_voltage", "x", "thing_2"};
+static size_t g_nextName = 0;
 
-static std::string verdictOf(const std::string & msg, bool & named)
+static std::string verdictOf(const std::string & msg, bool & named, const std::string & name)
 {
   static const std::pair<const char *, const char *> ends[] = {
     {" is too low.", "low"}, {" is too high.", "high"}, {" is OK.", "ok"}, {" is uncertain.", "uncertain"},
@@ -22,7 +24,7 @@ static std::string verdictOf(const std::string & msg, bool & named)
   for (auto & e : ends) {
     std::string end = e.first;
     if (msg.size() >= end.size() && msg.compare(msg.size() - end.size(), end.size(), end) == 0) {
-      named = msg.find(NAME) != std::string::npos;        // the message names the checked quantity
+      named = msg == name + end;                          // the message names the checked quantity, and only it
       return e.second;
     }
   }
@@ -31,11 +33,11 @@ static std::string verdictOf(const std::string & msg, bool & named)
   return "other";
 }
 
-static void observe(vh::Ev & e, const DiagnosticReport & r)
+static void observe(vh::Ev & e, const DiagnosticReport & r, const std::string & name)
 {
   bool named = false;
   const Diagnostic & d = r.diagnostics.front();
-  e.i("status", (int)d.status).str("verdict", verdictOf(d.message, named)).b("named", named && r.diagnostics.size() == 1);
+  e.i("status", (int)d.status).str("verdict", verdictOf(d.message, named, name)).b("named", named && r.diagnostics.size() == 1 && r.info.size() == 1 && r.info.begin()->first == name);
   const std::string & info = r.info.begin()->second;
   bool has = !info.empty(), ok = true;
   long long v = 0;
@@ -54,17 +56,18 @@ struct Obj
   std::string kind;
   std::unique_ptr<Checkup<double>> c;
   std::unique_ptr<CheckupReliability> rel;
+  std::string name;
   // ini: -1 default diagnostic, 0..3 an initial diagnostic with that status supplied to the constructor
-  Obj(const std::string & k, long long a, long long b, int ini = -1) : kind(k)
+  Obj(const std::string & k, long long a, long long b, int ini = -1) : kind(k), name(NAMES[g_nextName++ % NAMES.size()])
   {
     Diagnostic d0 = ini < 0 ? Diagnostic() : Diagnostic((DiagnosticStatus)ini, "initial message given by the caller");
-    if (k == "eq") {c.reset(new CheckupEqualTo<double>(NAME, (double)a, (double)b, d0));}
-    if (k == "gt") {c.reset(new CheckupGreaterThan<double>(NAME, (double)a, (double)b, d0));}
-    if (k == "lt") {c.reset(new CheckupLowerThan<double>(NAME, (double)a, (double)b, d0));}
-    if (k == "rel") {rel.reset(new CheckupReliability(NAME, (double)a, (double)b));}
+    if (k == "eq") {c.reset(new CheckupEqualTo<double>(name, (double)a, (double)b, d0));}
+    if (k == "gt") {c.reset(new CheckupGreaterThan<double>(name, (double)a, (double)b, d0));}
+    if (k == "lt") {c.reset(new CheckupLowerThan<double>(name, (double)a, (double)b, d0));}
+    if (k == "rel") {rel.reset(new CheckupReliability(name, (double)a, (double)b));}
   }
   DiagnosticReport report() const {return rel ? rel->getReport() : c->getReport();}
-  std::string first() {vh::Ev e("observe"); observe(e, report()); return e.done();}
+  std::string first() {vh::Ev e("observe"); observe(e, report(), name); return e.done();}
   std::string evaluate(long long k, int ulp)
   {
     double v = (double)k;
@@ -73,14 +76,14 @@ struct Obj
     DiagnosticStatus s = rel ? rel->evaluate(v) : c->evaluate(v);
     vh::Ev e("evaluate");
     e.i("k", k).i("ulp", ulp).i("ret", (int)s);
-    observe(e, report());
+    observe(e, report(), name);
     return e.done();
   }
   std::string timeout()
   {
     c->timeout();
     vh::Ev e("timeout");
-    observe(e, report());
+    observe(e, report(), name);
     return e.done();
   }
 };
